@@ -130,8 +130,8 @@ def gen_random(seed: int, n: int, long_p: float = 0.1) -> List[Dict[str, Any]]:
         for si, src in enumerate(srcs):   # every third schedule is created the public way: kicker.schedule_by_*(source, ...)
             src["edit"] = si % 2 == 1     # this source's pre_send stamps a label on the schedule it is about to let through
             for x in src["sched"]:
-                x["viak"] = x["sid"] % 3 == 0
-                x["noid"] = (x["sid"] % 3 == 1 or (x["viak"] and x["sid"] % 2 == 0)) and not x.get("lblsid")
+                x["viak"] = x["sid"] % 3 == 0 or (len(out) % 4 == 2 and x["sid"] % 3 == 2)     # sometimes two per source (same prepared kicker)
+                x["noid"] = (x["sid"] % 3 == 1 or (x["viak"] and len(out) % 2 == 0)) and not x.get("lblsid")
                 if x["kind"] == "once" and not x.get("naive"):
                     x["tzh"] = (0, 2, -7, 13)[x["sid"] % 4]        # target time written on clocks with different UTC offsets
         for st in steps:
